@@ -1,0 +1,24 @@
+//go:build verif
+
+package verifhooks
+
+import (
+	"honnef.co/go/tools/internal/passes/buildir"
+	typeindexanalyzer "honnef.co/go/tools/internal/xtools-internal/analysis/typeindex"
+	"honnef.co/go/tools/internal/xtools-internal/typesinternal/typeindex"
+)
+
+// BuildIR is internal/passes/buildir.Analyzer; its result has type *IR.
+var BuildIR = buildir.Analyzer
+
+// IR is internal/passes/buildir.IR.
+type IR = buildir.IR
+
+// BuildIRDebug exposes buildir.Debug (builder mode override).
+var BuildIRDebug = &buildir.Debug
+
+// TypeIndex is the typeindex analyzer; its result has type *Index.
+var TypeIndex = typeindexanalyzer.Analyzer
+
+// Index is typesinternal/typeindex.Index.
+type Index = typeindex.Index
